@@ -230,7 +230,7 @@ func (g *G) Any(label, want string) *anypb.Any {
 		case 2:
 			a.TypeUrl = typeURL(want)
 		default:
-			a.TypeUrl = rapid.SampledFrom([]string{"/", "proto.", "tapdance.tapdance.", "type.googleapis.com/", "\xff\xfe", "type.googleapis.com/google.protobuf.Any"}).Draw(g.rt, label+"_badurl")
+			a.TypeUrl = rapid.SampledFrom([]string{"/", "proto.", "tapdance.tapdance.", "type.googleapis.com/", "type.googleapis.com/proto.", "type.googleapis.com/google.protobuf.Any"}).Draw(g.rt, label+"_badurl")
 		}
 	} else {
 		switch rapid.IntRange(0, 3).Draw(g.rt, label+"_url") {
